@@ -153,7 +153,8 @@ func main() {
 	os.MkdirAll(filepath.Join(root, "evidence"), 0o755)
 
 	// 1. build against /repo's current working tree
-	bin := filepath.Join(bdir, pkg+".test")
+	bin := filepath.Join(bdir, fmt.Sprintf("%s.%d.test", pkg, os.Getpid())) // per-run name: concurrent runs of one property do not collide
+	defer os.Remove(bin)
 	args := []string{"test", "-c", "-tags", "verif", "-o", bin}
 	if cfg.Race {
 		args = append(args, "-race")
